@@ -566,7 +566,7 @@ def defaultAlphabet (k : String) : List (Int × Int) :=
   else if k == "PrintableString" then [(32, 32), (39, 41), (43, 58), (61, 61), (63, 63), (65, 90), (97, 122)]
   else if k == "VisibleString" then [(32, 126)]
   else if k == "IA5String" then [(0, 127)]
-  else if k == "BMPString" then [(0, 65533)]
+  else if k == "BMPString" then [(0, 65535)]
   else if k == "UniversalString" then [(0, 4294967295)]
   else []
 
